@@ -132,7 +132,7 @@ DECIDES += (' (PACK) for every index-kind sequence over None / integer / `:` / s
             'indexes a contig axis as data + i without reading strides[]; (MERGE) IndexNode.analyse_as_buffer_operation + MemoryViewSliceNode.merged_indices folded for every first-level index list of a '
             '1..3-dimensional view (`:`, integer, slice with only a start / stop / step, None) and every second-level list of integers and slices up to length 3: the single indexing that is generated '
             'has the same normal form (which source axis carries which opaque slice / index operations, where the new axes are) as NumPy\'s composition of the two indexings.')
-NOT_DECIDED += ('; second-level index lists that contain None or an Ellipsis in the view[a][b] merge (C16-MERGE-NEW reports the unmodified tree, pending finding), the item access code that consumes the '
+NOT_DECIDED += ('; second-level index lists that contain None or an Ellipsis in the view[a][b] merge (decided by C16-MERGE-NEW since the repair 6d19b8a0c), the item access code that consumes the '
                 'axis specifications (_generate_buffer_lookup_code: only its access modes are covered, by C17-ACCESS), IndexNode.infer_type for sliced views')
 MUTATIONS += [
     ('Cython/Compiler/ExprNodes.py', 'seed C16f: a constant step with abs() == 1 keeps the packing (a[::-1] of long[::1] stays contig)', 'C16-PACK packing:minus-one'),
@@ -765,8 +765,7 @@ def run(ctx):
     from ..rules import slicenorm, sC16
     # pending finding (FINDING_1 of strengthening session G3): sC16.rule_pyx_too_many (C16-PYXMANY) reports the unmodified tree - an index with more entries than
     # dimensions is not rejected by _unellipsify (silent extra dimensions, out-of-bounds writes beyond 8 slices); register it once the repair is in.
-    # pending finding (FINDING_1 of strengthening session H2, round 5): sC16.rule_merge_newaxis (C16-MERGE-NEW) reports the unmodified tree - MemoryViewSliceNode.merged_indices
+    # armed after the repair 6d19b8a0c (FINDING_1 of strengthening session H2, round 5): sC16.rule_merge_newaxis (C16-MERGE-NEW) reported the unmodified tree - MemoryViewSliceNode.merged_indices
     # pairs a second-level None / Ellipsis with one full slice of the first level: m[:, 1:][None] is compiled as m[None, 1:, :], m[...][..., i] (3-dim) as m[..., i, :].
-    # Register it next to sC16.rule_merge once the repair is in.
-    return [rule_sig(ctx, M), rule_extern(ctx, M), rule_tpl(ctx, M), rule_ctx(ctx, M), rule_calls(ctx, M), rule_def(ctx, M), rule_index(ctx, M), slicenorm.rule_slice(ctx),
+    return [sC16.rule_merge_newaxis(ctx), rule_sig(ctx, M), rule_extern(ctx, M), rule_tpl(ctx, M), rule_ctx(ctx, M), rule_calls(ctx, M), rule_def(ctx, M), rule_index(ctx, M), slicenorm.rule_slice(ctx),
             sC16.rule_pyx_too_many(ctx), sC16.rule_ellipsis(ctx), sC16.rule_amount(ctx, M), sC16.rule_step(ctx), sC16.rule_store(ctx, M), sC16.rule_gen(ctx), sC16.rule_pyx_ellipsis(ctx), sC16.rule_pyx_slice(ctx), sC16.rule_pyx_index(ctx), sC16.rule_suboffset_axis(ctx, M), sC16.rule_pyx_use(ctx), sC16.rule_fields(ctx), sC16.rule_pack(ctx), sC16.rule_merge(ctx)]
